@@ -160,6 +160,23 @@ func (i *interpreter) bytesEqTerm(a, b []value) *Term {
 	return acc
 }
 
+// kdfIndependentOf: an ideal KDF's output on symbolic input never equals a
+// key that was chosen independently of it (here: a fully concrete AEAD key -
+// the random source of the model hands out concrete bytes). Without this
+// axiom "does this box open under the passphrase-derived key?" is satisfiable
+// for every box sealed under a random key, by letting the fresh KDF output
+// collide with that key.
+func (i *interpreter) kdfIndependentOf(key []value) {
+	if !allConcrete(key) {
+		return
+	}
+	for _, rec := range i.kdfs {
+		if len(rec.out) == len(key) && !allConcrete(rec.out) {
+			i.assume(i.tt.BNot(i.bytesEqTerm(rec.out, key)))
+		}
+	}
+}
+
 func init() {
 	externals["golang.org/x/crypto/nacl/secretbox.Seal"] = func(fr *frame, a []value) value {
 		i := fr.i
@@ -167,6 +184,7 @@ func init() {
 		msg := a[1].([]value)
 		nonce := []value((*a[2].(*value)).(array))
 		key := []value((*a[3].(*value)).(array))
+		i.kdfIndependentOf(key)
 		var box []value
 		if allConcrete(msg, nonce, key) {
 			m, _ := bytesOf(msg)
@@ -196,6 +214,7 @@ func init() {
 		if len(box) < 16 {
 			return tuple{[]value(nil), false}
 		}
+		i.kdfIndependentOf(key)
 		// a recorded seal with the same (box, nonce, key)? decided symbolically
 		for _, r := range i.seals {
 			if len(r.box) != len(box) {
@@ -271,6 +290,12 @@ func init() {
 		for _, rec := range i.kdfs {
 			if len(rec.out) == len(out) {
 				i.assume(i.tt.BNot(i.bytesEqTerm(out, rec.out)))
+			}
+		}
+		// ... and from every independently chosen (concrete) key already in use
+		for _, r := range i.seals {
+			if len(r.key) == len(out) && allConcrete(r.key) {
+				i.assume(i.tt.BNot(i.bytesEqTerm(out, r.key)))
 			}
 		}
 		i.kdfs = append(i.kdfs, kdfRec{in: in, lp: len(pw), out: append([]value{}, out...), par: par})
